@@ -627,6 +627,7 @@ def gen_func_obligations(c, summ=None, ranges=None):
         obls.append(('returns_a_value', hy, ir.FALSE))
         return obls, {'dropped': ex.dropped}
     if c.result is not None:
+        if isinstance(val, tuple): raise Unsupported('result expression for a tuple-valued function: use ensures on result[i]')
         obls.append(('post.result', hy, ir.eq(ir.as_int(val), ir.as_int(ex.eval_spec(c.result, old)))))
     for i, e in enumerate(c.ensures):
         obls.append(('post.ensures[%d]' % i, hy, ex.truth(ex.eval_spec(e, old, {'result': val}))))
@@ -640,9 +641,15 @@ def verify_func(c, tier='quick', timeout_s=10, summ=None):
     except (Unsupported, ShapeError, ir.EvalError, KeyError) as e:
         return [Result('%s::%s#undecided' % (c.file, c.qual), smt.Verdict('unknown', 'none', 0, reason='%s: %s' % (type(e).__name__, e)),
                        {'exception': type(e).__name__}, contract=c, mode='param')]
+    allranged = c.args and all(a in c.ranges and None not in c.ranges[a] for a in c.args)
     for (cl, hy, goal) in obls:
         v = smt.prove(hy, goal, mode='int', timeout_s=timeout_s)
-        results.append(Result('%s::%s#%s' % (c.file, c.qual, cl), v, {'mode': 'parametric'}, hy, goal, None, c, 'param'))
+        md = 'parametric'
+        if v.status != 'proved' and allranged:
+            # fixed-width bit manipulation: exact bit-vector semantics over the declared argument ranges
+            v2 = smt.prove(hy, goal, mode='bv', timeout_s=timeout_s)
+            if v2.status != 'unknown' or v.status == 'unknown': v = v2; md = 'bit-vector (declared argument ranges)'
+        results.append(Result('%s::%s#%s' % (c.file, c.qual, cl), v, {'mode': md}, hy, goal, None, c, 'param'))
     return results
 
 
@@ -655,6 +662,8 @@ def replay_func(c, model):
     for p in c.qual.split('.'): f = getattr(f, p)
     args = [int(model.get('arg_' + a, 0)) for a in c.args]
     info = {'args': dict(zip(c.args, args))}
+    def _lift(x):
+        return tuple(ir.lift(y) for y in x) if isinstance(x, tuple) else ir.lift(x)
     ex = Executor(summaries=summaries()); st = State()
     for a, v in zip(c.args, args): st.loc[a] = ir.const(v)
     try:
@@ -673,7 +682,7 @@ def replay_func(c, model):
             want = ir.evaluate(ir.as_int(ex.eval_spec(c.result, st)), {})
             if want != got: problems.append(('result', want, got))
         for i, e in enumerate(c.ensures):
-            ok = ir.evaluate(ex.truth(ex.eval_spec(e, st, {'result': ir.lift(got)})), {})
+            ok = ir.evaluate(ex.truth(ex.eval_spec(e, st, {'result': _lift(got)})), {})
             if not ok: problems.append(('ensures[%d] %s' % (i, e), True, False))
     except (ir.EvalError, Unsupported) as e:
         info.update(reproduced=False, note='contract not evaluable natively: %s' % e); return info
